@@ -5,7 +5,7 @@ import types
 
 import z3
 
-from ..sym import Assumed, EngineLimit, Sym, _lift, ite
+from ..sym import documented, Assumed, EngineLimit, Sym, _lift, ite
 
 
 def _is_tensor(x):
@@ -37,7 +37,7 @@ def shape(x):
     if _is_tensor(x):
         return x.shape
     if isinstance(x, dict):
-        raise TypeError("shape requires ndarray or scalar arguments, got %s" % type(x))
+        raise documented(TypeError("shape requires ndarray or scalar arguments, got %s" % type(x)))
     raise EngineLimit("jnp.shape(%r)" % type(x))
 
 
@@ -65,7 +65,7 @@ def sum(x, axis=None, **kw):  # noqa: A001
     if _is_tensor(x):
         return x.sum(axis=axis)
     if isinstance(x, dict):
-        raise TypeError("sum requires ndarray or scalar arguments, got %s" % type(x))
+        raise documented(TypeError("sum requires ndarray or scalar arguments, got %s" % type(x)))
     raise EngineLimit("jnp.sum(%r)" % type(x))
 
 
@@ -78,7 +78,7 @@ def any(x, axis=None):  # noqa: A001
     if _is_tensor(x):
         return x.any()
     if isinstance(x, (dict, list, tuple)) or x is None:
-        raise TypeError("any requires ndarray or scalar arguments, got %s" % type(x))
+        raise documented(TypeError("any requires ndarray or scalar arguments, got %s" % type(x)))
     raise EngineLimit("jnp.any(%r)" % type(x))
 
 
@@ -122,10 +122,44 @@ def add(a, b):
     return a + b
 
 
+def arange(*a, **k):
+    from ..tensor import Tensor, _dim
+
+    Assumed.note("jnp.arange(n) = [0, 1, ..., n-1]; arange(a, b, s) = a + s*k for 0 <= k < ceil((b-a)/s)")
+    if len(a) == 1:
+        n = _dim(a[0])
+        return Tensor((n,), lambda idx: idx[0])
+    start, stop = _lift(a[0]), _lift(a[1])
+    step = _lift(a[2]) if len(a) > 2 else z3.IntVal(1)
+    # length = ceil((stop-start)/step) for step > 0 (integers)
+    ln = z3.If(stop > start, (stop - start + step - 1) / step, z3.IntVal(0))
+    return Tensor((z3.simplify(ln),), lambda idx: start + step * idx[0])
+
+
+def zeros(shape, dtype=None):
+    from ..tensor import Tensor
+
+    if isinstance(shape, (int, Sym)) or isinstance(shape, z3.ExprRef):
+        shape = (shape,)
+    if not shape:
+        return Sym(z3.RealVal(0))
+    return Tensor(tuple(shape), lambda idx: z3.RealVal(0))
+
+
+def ones(shape, dtype=None):
+    from ..tensor import Tensor
+
+    if isinstance(shape, (int, Sym)) or isinstance(shape, z3.ExprRef):
+        shape = (shape,)
+    if not shape:
+        return Sym(z3.RealVal(1))
+    return Tensor(tuple(shape), lambda idx: z3.RealVal(1))
+
+
 def namespace(**extra):
     ns = types.SimpleNamespace(
         array=array, asarray=asarray, shape=shape, ndim=ndim, where=where, sum=sum, any=any,
-        minimum=minimum, maximum=maximum, log=log, exp=exp, add=add, ndarray=object,
+        minimum=minimum, maximum=maximum, log=log, exp=exp, add=add, ndarray=object, arange=arange, zeros=zeros, ones=ones,
         float32="float32", int32="int32", bool_="bool", pi=3.141592653589793,
     )
     for k, v in extra.items():
